@@ -604,6 +604,10 @@ def ps(cx):
         for i in out["spec_dyn"][1:]:
             if not isinstance(ro, dict) or i not in ro or not _cache_eq(vo.get(i), ro.get(i)):
                 bad.append(f"_offsets[{i}]")
+        # the cache itself exists whenever a view has it (also with one or no dynamic field: the copy constructor and the
+        # whole-value update read `value._offsets` of their source without asking how many fields it locates)
+        if "_offsets" in view.attrs and not isinstance(ro, dict) and not bad:
+            bad.append("_offsets (absent)")
         if bad:
             cx.bad(None, construct=f"{label}: restored handle differs from a view in {bad}", detail="an unpickled struct locates its dynamic fields through these caches: accessors raise AttributeError/KeyError or read other bytes", anchor="struct::Struct.__setstate__", sub="struct")
         else:
